@@ -18,6 +18,7 @@ pub struct Op {
     pub res: u64,
 }
 
+#[allow(dead_code)]
 pub fn render(ops: &[Op]) -> String {
     ops.iter().map(|o| format!("{},{},{},{},{},{}", o.thread, o.inv, o.ret, o.name, o.arg, o.res)).collect::<Vec<_>>().join(";")
 }
